@@ -1,13 +1,59 @@
 """C18 -- analyses are pure: inputs are never modified, repeated calls agree regardless of what ran in between, output
 files hold the returned values to the written precision.
 
+CLAUSES (statement / quantifier split into axes; facet and assertion that decides each; class tags in evidence/C18.json,
+coverage.facets.*.classes, that show the axis is populated; "r3" = added in extension round 3)
+  clause / axis                         | decided by                                             | populated classes (tags)
+  --------------------------------------+--------------------------------------------------------+----------------------------------------
+  S1 every array of the snapshots       | (1) World.check_pure after EVERY call: dtype, shape,   | origin-{zero,centred,sumzero,arbitrary},
+     bit-for-bit unchanged              | bytes of positions / particle_type / boxlength /       | cell-{ortho,tri}, d2 / d3, T1..T5 (r3),
+                                        | boxbounds / realbounds / hmatrix of x, xu and the      | N8-11 / 12-16 / 17-40 / 64-99 / 100+ (r3),
+                                        | orientation snapshots, and of the frame list itself    | world-{noncontig,int32-types,perm-types,
+                                        | (order, length, time steps: world-back-times, r3)      | back-times,...}
+  S2 every array ARGUMENT unchanged     | (1) the same for every field / mask / matrix / vector  | <entry name> tags (every entry), world-
+                                        | argument (World.A), input files, dict and list         | mixed-ppp (r3), dict-and-list-arguments-
+                                        | arguments INCLUDING their order (r3); (9, r3) the      | {ascending,not-sorted} (r3), call-omits-
+                                        | MUTABLE DEFAULT values of every public signature (ppp  | arguments-that-have-mutable-defaults (r3),
+                                        | arrays, diameters / radii dicts, fits(p0=[])) -- the   | sweep:Dynamics.sq4 with the integer
+                                        | arguments of a call that omits them  [check_defaults]  | condition (r3)
+  S3 calling again with the same inputs | (2) History.call: equals the detached first result     | repeat, repeat-interleaved, object-reuse-
+     returns identical results          | bit-for-bit (NaN == NaN positionally); same VALUES in  | allowed, deep-copy-differential, rebuild-
+                                        | other objects (4) deep copy, (5) rebuild; other values | fresh-objects, mutate-and-restore,
+                                        | in the SAME objects (6) mutate-and-restore             | result-holds-nan-or-inf (r3 tag)
+  S4 ... regardless of what was         | machine / chains / sweeps: other entries, other        | focus-3-families / focus-all, live-objects-
+     computed in between                | parameters, other methods of the same live object in   | k, caller-overwrote-returned-arrays (r3),
+                                        | between; (7) returned values are not rewritten later;  | returned-arrays-watched, cwd-holds-files-
+                                        | (8, r3) the CALLER overwrites what was returned, new   | of-earlier-calls (r3)
+                                        | objects must reproduce the first results; (10, r3) the |
+                                        | working directory is the one the call was made in      |
+  S5 output file holds the returned     | (3) inside each entry: every token within half a unit  | with-output-file, result-holds-nan-or-inf-
+     values to the written precision    | of its last digit, NaN / inf tokens, .npy exact, header | and-file-requested, output-file-name-in-a-
+                                        | = columns, row / column counts; a file of that name    | subdirectory (r3), cwd-holds-files-of-
+                                        | left by an earlier call is overwritten, not appended   | earlier-calls (r3)
+                                        | to / reused (r3: one working directory per session)    |
+  Q1 all public analysis entry points   | catalogue (c18_entries) + inventory by introspection   | inventory: exercised / only reached
+                                        | with measured coverage, flag_coverage raises a HARNESS | through ... / NOT exercised (with reason),
+                                        | error for a flag value never passed                    | flag ...: k/k values exercised
+  Q2 valid inputs                       | worlds: ordinary / unusual-but-accepted / degenerate   | world-ordinary / world-off-domain / world-
+                                        | (see Worlds); r3: one frame, 4-8 frames, N up to 150,  | degenerate and world-<variant> for each of
+                                        | partially periodic boxes, repeated / decreasing time   | the 15 variants, K1..K6
+                                        | steps, isolated particle (cn = 0), integer conditions  |
+  Q3 arbitrary interleavings on shared  | machine (<= 10 steps quick; machine_deep <= 30 steps   | repeat-interleaved, rebuild-fresh-objects,
+     snapshot objects                   | thorough, r3), steps: call / repeat / vary / rebuild / | mutate-and-restore, caller-overwrote-
+                                        | mutate-and-restore / caller-overwrites (r3)            | returned-arrays
+Weak before round 3 and closed now: S2 covered arrays the harness passes explicitly only (default-argument objects were never
+the argument: every entry passed ppp / diameters / radii), dict comparison ignored order and all list / dict arguments were
+sorted; S4 never let the caller touch a returned value and ran every call in its own empty directory; S5 never met a
+pre-existing file or a name with a directory; Q1 lacked write_dump_header(addson=None), NematicOrder without positions,
+boo_2d(output_phi=...); Q2 had T in {2, 3} and N <= 16 only and fully periodic boxes only.
+
 History facet `machine`: a Hypothesis rule-based state machine over ONE shared world per history (c18_world.World:
 wrapped + unwrapped Snapshots of the same trajectory, an orientation Snapshots in 2D, shared per-particle fields,
 parameter matrices, synthetic neighbour / weight / Voronoi-index / dump / log files).  Rules = "call public entry point
 X with drawn parameters" (catalogue in c18_entries.py, 70+ entries in 14 families; which of the public callables of
 PyMatterSim they exercise is measured, see `flag_coverage`).  After EVERY step:
   (1) every array reachable from the snapshots and every argument array has the dtype, shape and bytes of its pristine
-      copy; input files and dict / list arguments are unchanged                            [World.check_pure]
+      copy; input files and dict / list arguments (with their order) are unchanged          [World.check_pure]
   (2) if (X, params, out) was called before in this history the result equals the one returned then (a detached copy
       taken at return time) bit-for-bit                                                     [History.call]
   (3) a requested output file parses back to the returned values at the written precision   [inside each entry]
@@ -28,35 +74,58 @@ PyMatterSim they exercise is measured, see `flag_coverage`).  After EVERY step:
       object's cached array in place, a recycled buffer).  Sound because it is only demanded while the harness has not
       rebuilt / overwritten the inputs (a result may alias an input: voropp.get_input returns the box-bound arrays), and
       no routine documents its return value as a live view.                                 [History.check_watch]
+  (8) step kind `scribble` (r3): the caller overwrites IN PLACE every array / DataFrame returned so far (they are the
+      caller's) and throws the analysis objects away; the last call and one other earlier call are then made again
+      through NEW objects and must return what they returned first: a routine that hands out its memo, a module-level
+      table or an lru_cache'd array instead of a value of its own is exposed.  Inputs that a returned array aliases are
+      written back in place first (tag returned-array-aliased-an-input).                    [History.scribble]
+  (9) (r3) the mutable default values in the signatures of all public callables (found by introspection: 22 ppp arrays /
+      diameters / radii dicts / fits(p0=[])) have the state they had before the first call; entries with "dflt" in their
+      parameter set OMIT those keywords where the default describes the world.             [c18_inventory.check_defaults]
+ (10) (r3) a call returns in the working directory it was made in.                          [run_entry]
 Analysis objects (gr / sq / boo_3d / boo_2d / Dynamics / LogDynamics / S2 / NematicOrder / HessianMatrix / DumpReader)
 are, when `reuse` is drawn (2 in 3 calls), kept alive and shared between the calls of the history, as in an interactive
 session: method chains on one live object in any order with other methods in between.  The expected result never
-depends on it (c18_entries: `make` puts a new object into the state the chain starts from).
+depends on it (c18_entries: `make` puts a new object into the state the chain starts from).  Those calls also share ONE
+working directory per world (r3): the output files of earlier calls -- same names, other parameters -- are still there
+when the next call writes (append mode / "skip, the file exists" conveniences); all other calls get an empty directory.
+Odd parameter sets request their text / csv files under 'res.v1/<stem>.run2.<ext>' instead of '<stem>.<ext>' (r3).
 
-Worlds: 80 % ordinary (valid-input domain of c18_world), 20 % unusual-but-accepted (`variant`: species labels {1,3} /
+Worlds: 55 % ordinary (valid-input domain of c18_world), 20 % unusual-but-accepted (`variant`: species labels {1,3} /
 {2,3} / {2} / {1,2,4} / 0-based, per-frame permuted labels, int32 labels, non-contiguous position views, logarithmic
-time steps).  Purity is promised for ANY call: in such an off-domain world an exception raised inside PyMatterSim is a
-refusal, not a violation (tag `rejected-input`; it must then refuse again when the call is repeated), but (1) is checked
-after the refusal as well and calls that return are subject to (1)-(7) like anywhere else.  In ordinary worlds an
-exception is a violation, as before.
+time steps, r3: partially periodic boxes, a repeated time step, a time step that goes back, sheared trajectories with a
+cell matrix per frame), 25 % degenerate (pinned
+particles, revisited frames, zero fields + an isolated particle: results hold NaN / inf).  T = 1..5 frames (r3; 2-3 before),
+N = 8..28 (r3; 8..16 before).  Purity is promised for ANY call: in an off-domain / degenerate world an exception raised
+inside PyMatterSim is a refusal, not a violation (tag `rejected-input`; it must then refuse again when the call is
+repeated), but (1) is checked after the refusal as well and calls that return are subject to (1)-(10) like anywhere else.
+In ordinary worlds an exception is a violation, as before.
 
 Facet `chains`: one family of methods that share an analysis object (s2, nematic, boo, pair, dyn, hess): 4-7 drawn
-(method, params, out) calls on ONE set of live objects, then two of the earlier calls again; (1), (2), (3), (7).
+(method, params, out) calls on ONE set of live objects, then two of the earlier calls again; (1), (2), (3), (7); in half
+the cases then (8) and the first two calls once more through new objects.
 
 Facet `flag_coverage` (finite, deterministic; c18_inventory.py): every (entry, params, output on/off) once (and, in the
-two ordinary worlds, every (entry, params) again in the opposite order: a repeat with the whole catalogue in between),
-through one set of live objects per fixed world (two ordinary worlds in full, eleven small ones for the label / dtype / layout /
-time-step variants and the 1-, 4-, 5-species methods) with (1), (3), (7); while it runs a profiler hook records which
-public callables of PyMatterSim (inventory by pkgutil + inspect) are entered straight from the harness and with which
-values of their flag keywords (bool default / Enum / Literal / documented choice).  Reported in the evidence: callables
-found / exercised directly / only indirectly / not exercised with the reason; per flag the values exercised.  A flag of a
-directly exercised routine that no entry varies over all its values (and is not exempt with a written reason) is a
-HARNESS error (exit 2), not a violation.
+worlds marked so, every (entry, params) again in the opposite order: a repeat with the whole catalogue in between),
+through one set of live objects and one working directory per fixed world (two ordinary worlds in full, small ones for
+the label / dtype / layout / time-step / periodicity variants, the 1-, 4-, 5-species methods, one- and five-frame
+trajectories) with (1), (3), (7), (9), (10); while it runs a profiler hook records (first run of every (entry, params,
+out, d, K)) which public callables of PyMatterSim (inventory by pkgutil + inspect) are entered straight from the harness
+and with which values of their flag keywords (bool default / Enum / Literal / documented choice).  Reported in the
+evidence: callables found / exercised directly / only indirectly / not exercised with the reason; per flag the values
+exercised.  A flag of a directly exercised routine that no entry varies over all its values (and is not exempt with a
+written reason) is a HARNESS error (exit 2), not a violation.
+Facets `sweep_nonfinite` / `sweep_sizes` (r3 split; separate processes): the same deterministic sweep in the degenerate
+worlds (every call with and without output file and once more as a repeat: NaN / inf in repeat-equality and in the file
+round trips), and on two larger systems (N = 100, 101: either side of a block size of 100) and two long trajectories
+(8 and 7 frames).
 
 Facets `single_<family>`: for one catalogue entry drawn at random: call - check purity - another call of the family -
-call again - compare - both on a deep copy in the opposite order - compare - (re-allocate all inputs, call, compare) -
-mutate-and-restore as in (6); (7) across the calls on the shared world.  Cheap, high volume, and a defect of one entry
-point is reported per family, separately from the history facet.
+call again - compare - both on a deep copy in the opposite order - compare - (the caller overwrites the returned arrays,
+both calls again, r3) - (re-allocate all inputs, call, compare) - mutate-and-restore as in (6); (7) across the calls on the
+shared world.  Cheap, high volume, and a defect of one entry point is reported per family, separately from the history
+facet.  Facet `sizes` (r3): the same stages without mutate-and-restore for one entry of any family on N = 64 ... 128.
+Facet `machine_deep` (r3, thorough tier only): the state machine with up to 30 steps, 1-8 frames, N up to 40 (64-150).
 """
 from __future__ import annotations
 
@@ -71,17 +140,23 @@ from hypothesis.stateful import initialize, invariant, precondition, rule
 
 from ..harness import Facet, RecordingMachine, Violation, exception_from_cut
 from .c18_entries import CATALOGUE, FAMILIES, Ctx, eligible
-from .c18_inventory import NOT_RUNNABLE, SKIP_MODULES, CallTracer, flag_report, inventory
+from .c18_inventory import NOT_RUNNABLE, SKIP_MODULES, CallTracer, check_defaults, default_objects, flag_report, inventory
 from .c18_world import DEGENERATE, ORIGINS, VARIANTS, World, detach, fingerprint, has_arrays, same
 
 RULE = ("histories of <= 10 calls of public analysis entry points (catalogue of %d entries in %d families; measured API "
-        "coverage in facet flag_coverage) on one shared world: d in {2,3}, N 8..16, 2..3 frames, K 1..5 species, box origin in "
+        "coverage in facet flag_coverage) on one shared world: d in {2,3}, N 8..28 (64..150 in sizes / sweep_sizes / "
+        "machine_deep), 1..5 frames (..8 thorough), K 1..6 species, box origin in "
         "{zero, centred on the origin, bounds summing to zero, arbitrary}, orthogonal or (where the routine documents it) "
-        "triclinic cell; 80 %% ordinary worlds, 20 %% unusual-but-accepted ones (labels not 1..K, per-frame permuted labels, "
-        "int32 labels, non-contiguous positions, logarithmic time steps); parameters from small finite sets that take every "
-        "documented value of every flag, 'repeat an earlier call' rules, optional output files, analysis objects kept alive "
-        "and shared between calls (2 in 3), optional deep-copy differential, 'rebuild all inputs as fresh value-equal "
-        "objects' steps and 'overwrite the inputs in place with other contents / call / restore / call' steps.  Non-trivial "
+        "triclinic cell; 55 %% ordinary worlds, 20 %% unusual-but-accepted ones (labels not 1..K, per-frame permuted labels, "
+        "int32 labels, non-contiguous positions, logarithmic / repeated / decreasing time steps, partially periodic boxes), "
+        "25 %% degenerate ones (pinned particles, revisited frames, zero fields, an isolated particle); parameters from small "
+        "finite sets that take every "
+        "documented value of every flag and omit the keywords with mutable defaults where those describe the world, "
+        "'repeat an earlier call' rules, optional output files (plain names and names in a sub-directory), analysis objects "
+        "kept alive and shared between calls (2 in 3; those calls share one working directory), optional deep-copy "
+        "differential, 'rebuild all inputs as fresh value-equal "
+        "objects' steps, 'overwrite the inputs in place with other contents / call / restore / call' steps and 'the caller "
+        "overwrites every returned array in place, then repeats through new objects' steps.  Non-trivial "
         "history = >= 2 different entry points and >= 1 repeated (entry, params, out) call with at least one other call in "
         "between." % (len(CATALOGUE), len(FAMILIES)))
 ASSUMPTIONS = [
@@ -108,6 +183,18 @@ ASSUMPTIONS = [
     "and compares result attributes of the object (s2_results, QIJ, smallqlm, largeQlm, ParticlePhi) like returned values",
     "off-domain worlds: an exception raised inside PyMatterSim is accepted as a refusal of the input (and must be "
     "repeated by a repeated call); the per-species parameter tables there have one row per type up to the largest label",
+    "the caller-overwrites step (8) is only followed by calls through NEW analysis objects (an object's attributes are "
+    "documented state of that object; a module-level table or memo is not); an input that changed because a returned array "
+    "aliases it is restored by the harness and not reported",
+    "a call that omits a keyword with a mutable default does so only where the default describes the world (ppp: all ones of "
+    "the world's dimension and a fully periodic world; zeros(3) for unwrapped 3D coordinates; diameters / radii: labels "
+    "within {1, 2}) -- in off-domain worlds default diameters are also used for other labels (NaN results, purity still holds)",
+    "calls through shared live objects run in one working directory per world in which output files of earlier calls "
+    "remain; 'the file holds the returned values' is demanded of the file as it is after the call, whatever was there before",
+    "requested csv / text names keep the extension the docs ask for ('filename.csv': vector_decomposition_sq appends '.csv' "
+    "to any other name); the directory part of a name exists before the call",
+    "the per-vector table sq writes next to its csv (saveqvectors) and the spectra file of vector_fft_corr are not "
+    "returned: their text is compared between repeated calls only",
     "the GSD / DCD readers and the voro++ wrappers are not exercised (packages / executable absent; C19 drives read_gsd "
     "with duck-typed frames); every other public callable found by introspection is called directly by some entry",
 ]
@@ -116,10 +203,16 @@ MANIFEST = {
             "measured coverage): machine facet = generated call histories on shared snapshots and shared live analysis "
             "objects with byte-level input invariants, repeat-call equality, returned-value stability, output-file round "
             "trips, a deep-copy differential, re-allocation of all inputs and in-place overwrite/restore of all inputs, in "
-            "ordinary and in unusual-but-accepted worlds (labels not 1..K, int32 labels, non-contiguous positions, "
-            "permuted labels, logarithmic time steps); chains facet = method chains of one class on one live object; "
-            "flag_coverage = deterministic sweep of every (entry, parameter set, output on/off) + completeness self-check "
-            "(every flag keyword takes all its values); single_* facets = the same checks per entry point in isolation."
+            "ordinary, unusual-but-accepted (labels not 1..K, int32 labels, non-contiguous positions, permuted labels, "
+            "logarithmic / repeated / decreasing time steps, partially periodic boxes) and degenerate worlds (NaN / inf "
+            "results), 1-5 frames (8 thorough), N 8-28 (150 thorough); round 3: the mutable default arguments of all public "
+            "signatures are watched like passed arguments, dict / list arguments are compared with their order, the caller "
+            "overwrites returned arrays and repeats through new objects, calls of a session share one working directory "
+            "(pre-existing output files), file names with a directory; chains facet = method chains of one class on one live "
+            "object; flag_coverage = deterministic sweep of every (entry, parameter set, output on/off) + completeness "
+            "self-check (every flag keyword takes all its values); sweep_nonfinite / sweep_sizes = the sweep in degenerate "
+            "worlds / on N = 100, 101 and 7-8 frames; single_* and sizes facets = the same checks per entry point in "
+            "isolation; machine_deep (thorough) = histories of 30 steps."
             % len(CATALOGUE),
     "note": "Self-consistency only (no reference values). Trusted: numpy/pandas readers used to parse the output "
             "files, Hypothesis. Not exercised, with reasons in the evidence: voro++ wrappers (external binary), GSD/DCD "
@@ -165,6 +258,23 @@ def _poison():
 
 
 
+def _nonfinite(x):
+    """True when a result structure holds a NaN / inf somewhere (class tag: repeat-equality and file round trips on
+    non-finite values)."""
+    import pandas as pd
+    if isinstance(x, (pd.DataFrame, pd.Series)):
+        x = x.to_numpy()
+    if isinstance(x, np.ndarray):
+        if x.dtype == object:
+            return any(_nonfinite(v) for v in x.ravel().tolist())
+        return bool(x.dtype.kind in "fc" and x.size and not np.isfinite(x).all())
+    if isinstance(x, dict):
+        return any(_nonfinite(v) for v in x.values())
+    if isinstance(x, (list, tuple)):
+        return any(_nonfinite(v) for v in x)
+    return isinstance(x, (float, complex, np.floating, np.complexfloating)) and not np.isfinite(x)
+
+
 def run_entry(w, name, p, out, objs, tag, note=None):
     """One call of a catalogue entry in a fresh output directory (cwd during the call).  Returns (key, result).
     In an off-domain world (w.tolerant) an exception raised inside PyMatterSim is a refusal of the input, not a
@@ -173,16 +283,30 @@ def run_entry(w, name, p, out, objs, tag, note=None):
     q = fn.P[p % len(fn.P)]
     out = bool(out and fn.has_out)
     key = (name, p % len(fn.P), out)
-    calldir = tempfile.mkdtemp(prefix="call-", dir=w.root)
+    # Calls that go through the live objects of a history run in ONE working directory per world (an interactive
+    # session: the output files of earlier calls -- same names, other parameters -- are still there and are overwritten);
+    # all other calls get a fresh, empty directory.
+    session = objs is not None
+    if session:
+        calldir = os.path.join(w.root, "session-cwd")
+        os.makedirs(calldir, exist_ok=True)
+        if note and os.listdir(calldir):
+            note("cwd-holds-files-of-earlier-calls")
+    else:
+        calldir = tempfile.mkdtemp(prefix="call-", dir=w.root)
     old = os.getcwd()
     os.chdir(calldir)
+    default_objects()  # frozen before the first call of the process
     _poison()
     try:
         # 0/0 -> NaN in degenerate bins etc. is a value (compared as such), not an event: silence the warnings
         with warnings.catch_warnings(), np.errstate(all="ignore"):
             warnings.simplefilter("ignore")
             try:
-                res = fn(w, q, out, Ctx(objs))
+                res = fn(w, q, out, Ctx(objs, style=key[1] % 2))
+                if os.path.realpath(os.getcwd()) != os.path.realpath(calldir):
+                    _fail(f"{tag} {name}({q}, out={out}) returned with another working directory ({os.getcwd()!r}) than it "
+                          f"was called in: files requested by relative name from now on are written elsewhere")
             except Violation:
                 raise
             except Exception as e:  # noqa: BLE001
@@ -194,13 +318,61 @@ def run_entry(w, name, p, out, objs, tag, note=None):
                     note(f"{REJECTED}:{name}")
     finally:
         os.chdir(old)
-        shutil.rmtree(calldir, ignore_errors=True)
+        if not session:
+            shutil.rmtree(calldir, ignore_errors=True)
     w.check_pure(f"{tag} {name}({q}, out={out})")
+    check_defaults(f"{tag} {name}({q}, out={out})")
+    if note:
+        if q.get("dflt"):
+            note("call-omits-arguments-that-have-mutable-defaults")
+        if out and key[1] % 2:
+            note("output-file-name-in-a-subdirectory")
+        if _nonfinite(res):
+            note("result-holds-nan-or-inf" + ("-and-file-requested" if out else ""))
     return key, res
 
 
 def rejected(res):
     return isinstance(res, tuple) and len(res) == 2 and isinstance(res[0], str) and res[0] == REJECTED
+
+
+def _scribble(x):
+    """Overwrite IN PLACE, as their owner may, every array / DataFrame of a result structure with recognisable garbage;
+    returns the number of leaves overwritten."""
+    import pandas as pd
+    if isinstance(x, np.ndarray):
+        if not x.flags.writeable or x.size == 0:
+            return 0
+        if x.dtype == object:
+            if any(has_arrays(v) for v in x.ravel().tolist()):
+                return sum(_scribble(v) for v in x.ravel().tolist())
+            x[...] = -7  # a table of Python / sympy numbers (Wignerindex)
+            return 1
+        k = x.dtype.kind
+        if k == "f":
+            x[...] = -12345.678
+        elif k == "c":
+            x[...] = complex(-1.5, 2.5)
+        elif k in "iu":
+            x[...] = 7
+        elif k == "b":
+            np.logical_not(x, out=x)
+        else:
+            return 0
+        return 1
+    if isinstance(x, pd.DataFrame):
+        n = 0
+        for j in range(x.shape[1]):
+            k = x.iloc[:, j].dtype.kind
+            if k in "fiu" and len(x):
+                x.iloc[:, j] = -12345.678 if k == "f" else 7
+                n = 1
+        return n
+    if isinstance(x, dict):
+        return sum(_scribble(v) for v in x.values())
+    if isinstance(x, (list, tuple)):
+        return sum(_scribble(v) for v in x)
+    return 0
 
 
 class History:
@@ -267,6 +439,23 @@ class History:
         self.objs.clear()
         self.watch.clear()
 
+    def scribble(self):
+        """Invariant (8).  What a call returned belongs to the caller: the caller now overwrites every returned array /
+        DataFrame in place (`res[...] = ...`, `df.iloc[:, j] = ...`) and throws the analysis objects away.  Every later
+        call -- necessarily through NEW analysis objects -- must still return what the same call returned first (the store
+        of first results is kept): a routine that hands out its memo / a module-level table / a recycled buffer instead of
+        a value of its own is then exposed.  A returned array may alias an INPUT (voropp.get_input returns the box-bound
+        arrays): an input that changed through such an alias is written back in place (harness step, tagged)."""
+        self.check_watch("the calls so far")
+        n = sum(_scribble(live) for _, _, live, _, _ in self.watch)
+        self.invalidate()
+        aliased = self.w.restore_changed()
+        check_defaults("the caller overwrote the returned arrays in place (a returned array aliases a default argument)")
+        self.note("caller-overwrote-returned-arrays" if n else "nothing-to-overwrite")
+        if aliased:
+            self.note("returned-array-aliased-an-input")
+        return n
+
 
 def mutate_and_restore(w, entry, p, out, seed2, r1, root2, tag):
     """r1 = result of entry(p) on w (contents A, just computed).  Overwrite the SAME array objects / input files in
@@ -330,21 +519,52 @@ def _variant(k):
     return _UNUSUAL[k % len(_UNUSUAL)] if r < 15 else DEGENERATE[k % len(DEGENERATE)]
 
 
-_KS = [1, 1, 2, 2, 2, 2, 3, 3, 3, 3, 4, 5]  # the 4- and 5-species g(r) / S(q) are slow: 1 world in 12 each
+_KS = [1, 1, 2, 2, 2, 2, 3, 3, 3, 3, 4, 5, 6]  # the 4- and 5-species g(r) / S(q) are slow: 1 world in 13 each; 6 species:
+#                                               "only overall" branch of gr / sq (more species than partial columns exist for)
+_TS = [1, 2, 2, 2, 3, 3, 3, 4, 5]          # one frame (static analyses of a single configuration) ... five frames
 VARIANT_ST = st.integers(0, 2 ** 16).map(_variant)
 K_ST = st.integers(0, 2 ** 16).map(lambda k: _KS[_mix(k + 17) % len(_KS)])
+T_ST = st.integers(0, 2 ** 16).map(lambda k: _TS[_mix(k + 5) % len(_TS)])
+
+
+
+def _size(k):
+    """N = 8..16 in 7 worlds of 8, 17..28 in the eighth."""
+    k = _mix(k + 3)
+    r, k = k % 8, k // 8
+    return 8 + k % 9 if r < 7 else 17 + k % 12
+
+
+N_ST = st.integers(0, 2 ** 16).map(_size)
+# thorough-tier facets (machine_deep, sizes): longer trajectories, larger systems (N = 100, 101: around a block size of 100)
+T_DEEP = st.sampled_from([1, 2, 3, 4, 5, 6, 7, 8])
+_BIG = [64, 99, 100, 101, 128, 150]
+
+
+def _size_deep(k):
+    """N = 8..40 in 9 worlds of 10, one of 64 ... 150 in the tenth."""
+    k = _mix(k + 11)
+    r, k = k % 10, k // 10
+    return 8 + k % 33 if r < 9 else _BIG[k % len(_BIG)]
+
+
+N_DEEP = st.integers(0, 2 ** 16).map(_size_deep)
+N_BIG = st.sampled_from([64, 99, 100, 101, 128])
 
 
 def world_tags(kw):
+    N = kw["N"]
     return [f"d{kw['d']}", f"origin-{kw['origin']}", f"cell-{kw['cell']}", f"K{kw['K']}", f"T{kw['T']}",
-            f"N{'8-11' if kw['N'] < 12 else '12-16'}", f"world-{kw.get('variant', 'plain')}",
+            f"N{'8-11' if N < 12 else '12-16' if N < 17 else '17-40' if N <= 40 else '64-99' if N < 100 else '100+'}",
+            "dict-and-list-arguments-" + ("ascending" if kw["seed"] % 3 == 0 else "not-sorted"),
+            f"world-{kw.get('variant', 'plain')}",
             "world-ordinary" if kw.get("variant", "plain") == "plain" else
             ("world-degenerate" if kw.get("variant") in DEGENERATE else "world-off-domain")]
 
 
 # ============================================================================= history facet
 
-WORLD_KW = dict(seed=st.integers(0, 2 ** 20), d=st.sampled_from([2, 3]), N=st.integers(8, 16), T=st.sampled_from([2, 3]),
+WORLD_KW = dict(seed=st.integers(0, 2 ** 20), d=st.sampled_from([2, 3]), N=N_ST, T=T_ST,
                 K=K_ST, origin=st.sampled_from(ORIGINS),
                 cell=st.sampled_from(["ortho", "ortho", "ortho", "tri"]), variant=VARIANT_ST,
                 # families this history concentrates on (a session works with a few analyses, and order-dependent
@@ -442,6 +662,24 @@ class PurityMachine(RecordingMachine):
         self.w.check_pure("rebuilding the shared objects (harness)")
         self.tag("rebuild-fresh-objects")
 
+    # ---- the caller overwrites what was returned to it
+    @precondition(lambda self: bool(self.calls))
+    @rule(idx=st.integers(0, 9))
+    def r_scribble(self, idx):
+        self.step("scribble", idx=idx)
+        self.do_scribble(idx=idx)
+
+    def do_scribble(self, idx):
+        """Invariant (8): overwrite every returned array in place, drop the analysis objects, then make the last call and
+        one other earlier call again (through new objects): each must return what it returned first."""
+        self.h.scribble()
+        again = [self.calls[-1][1]]
+        other = [kw for k, kw in self.calls[:-1] if k != self.calls[-1][0]]
+        if other:
+            again.append(other[_mix(idx + 31 * self.wkw["seed"]) % len(other)])
+        for kw in again:
+            self.do_call(**dict(kw, reuse=False, dup=False))
+
     # ---- other values in the same objects
     def do_mutres(self, entry, p, out, seed2):
         self.do_call(entry=entry, p=p, out=out, reuse=False, dup=False)
@@ -538,6 +776,18 @@ def _add_rules():
 
 _add_rules()
 
+WORLD_KW_DEEP = dict(WORLD_KW, N=N_DEEP, T=T_DEEP)
+
+
+class PurityMachineDeep(PurityMachine):
+    """Thorough tier only: histories of up to 30 steps on longer trajectories (up to 8 frames) and larger systems (N up to
+    40, sometimes 64 ... 150); the rules are those of PurityMachine."""
+
+    @initialize(**WORLD_KW_DEEP)
+    def r_init(self, **kw):
+        self.step("init", **kw)
+        self.do_init(**kw)
+
 
 def _params(entry, p):
     fn = CATALOGUE[entry]
@@ -551,6 +801,8 @@ def describe_machine(log):
             out.append(("init", kw))
         elif name == "rebuild":
             out.append(("rebuild",))
+        elif name == "scribble":
+            out.append(("caller overwrites the returned arrays, then repeats",))
         elif name == "mutres":
             out.append(("mutate-and-restore", kw["entry"], _params(kw["entry"], kw["p"])))
         else:
@@ -561,8 +813,9 @@ def describe_machine(log):
 # ============================================================================= single-call facets
 
 
-def _world_for(draw, fn, fam):
-    seed, N, T = draw(st.integers(0, 2 ** 20)), draw(st.integers(8, 16)), draw(st.sampled_from([2, 3]))
+def _world_for(draw, fn, fam, n_st=N_ST, t_st=T_ST):
+    seed, N, T = draw(st.integers(0, 2 ** 20)), draw(n_st), draw(t_st)
+    T = max(T, fn.minT)
     K = draw(K_ST)
     d = draw(st.sampled_from(list(fn.dims)))
     cell = draw(st.sampled_from(["ortho", "ortho", "tri"])) if fn.tri else "ortho"
@@ -584,8 +837,24 @@ def single_st(fam):
         return {"entry": name, "p": _pick(draw, range(len(fn.P)), salt + 2), "entry2": name2,
                 "p2": _pick(draw, range(len(CATALOGUE[name2].P)), salt + 3),
                 "out": draw(st.booleans()), "reuse": draw(st.booleans()), "seed2": draw(st.integers(0, 2 ** 20)),
-                "rebuild": draw(st.booleans()), "world": world}
+                "rebuild": draw(st.booleans()), "scribble": draw(st.booleans()), "world": world}
     return strat()
+
+
+@st.composite
+def sizes_st(draw):
+    """Larger systems (N 64 ... 128, around a block size of 100) for one entry of any family: the call / repeat / deep-copy
+    / overwrite-returned-arrays stages of check_single (no mutate-and-restore: cost)."""
+    salt = draw(st.integers(0, 2 ** 20))
+    fam = _pick(draw, sorted(FAMILIES), salt + 9)
+    name = _pick(draw, _names(fam) or FAMILIES[fam], salt)
+    fn = CATALOGUE[name]
+    world = _world_for(draw, fn, fam, N_BIG, st.sampled_from([1, 2, 3]))
+    world["K"] = min(world["K"], 3)
+    world["variant"] = _pick(draw, ["plain", "plain", "plain", "pinned", "noncontig", "lab-gap"], salt + 4)
+    return {"entry": name, "p": _pick(draw, range(len(fn.P)), salt + 2), "entry2": name,
+            "p2": _pick(draw, range(len(fn.P)), salt + 3), "out": draw(st.booleans()), "reuse": draw(st.booleans()),
+            "rebuild": False, "scribble": True, "world": world}
 
 
 def check_single(case):
@@ -623,6 +892,12 @@ def check_single(case):
             _fail(f"{label(key)} on the shared objects differs from the same call on a bit-identical deep copy of all "
                   f"inputs: {m}")
         h.check_watch("the calls on a deep copy")
+        # the caller overwrites the arrays it was handed, then calls again (new analysis objects)
+        if case.get("scribble"):
+            h.scribble()
+            h.call(name, case["p"], case["out"], False, "call after the caller overwrote the returned arrays in place:")
+            if between:
+                h.call(name2, case["p2"], case["out"], False, "call after the caller overwrote the returned arrays in place:")
         # same values in freshly allocated objects: the result must not change
         if case.get("rebuild"):
             h.invalidate()
@@ -668,7 +943,8 @@ def chain_st(draw):
     for k in range(draw(st.integers(3, 6))):
         n = _pick(draw, names, salt + 10 + k)
         steps.append((n, _pick(draw, range(len(CATALOGUE[n].P)), salt + 20 + k), draw(st.booleans())))
-    return {"family": fam, "world": world, "steps": steps, "again": [draw(st.integers(0, 6)) for _ in range(2)]}
+    return {"family": fam, "world": world, "steps": steps, "again": [draw(st.integers(0, 6)) for _ in range(2)],
+            "scribble": draw(st.booleans())}
 
 
 def check_chain(case):
@@ -691,6 +967,11 @@ def check_chain(case):
             if done:
                 name, p, out = done[k % len(done)]
                 h.call(name, p, out, True, "repeat at the end of the chain:")
+        if case.get("scribble") and done:
+            # the caller overwrites everything the chain returned; a NEW set of objects must reproduce the first results
+            h.scribble()
+            for name, p, out in done[:2]:
+                h.call(name, p, out, True, "call through new objects after the caller overwrote the returned arrays:")
         tags.append(f"live-objects-{min(len(h.objs), 4)}{'+' if len(h.objs) > 4 else ''}")
         return {"nontrivial": bool(len({k for k in h.keys}) >= 2 and h.interleaved), "tags": tags}
     finally:
@@ -721,34 +1002,63 @@ _NONFINITE = ("dyn", "pair", "vec", "cg", "nematic", "boo", "s2", "misc")
 _KARY_ONLY = ("gr.getresults", "gr.k-ary", "sq.getresults", "sq.k-ary")  # entry names: the methods that depend on K
 SWEEP_WORLDS = [
     (True, None, dict(d=2, N=8, T=3, K=2, origin="arbitrary", cell="ortho", variant="plain")),
-    (True, None, dict(d=3, N=8, T=3, K=3, origin="zero", cell="ortho", variant="plain")),
+    # (seed0 = 1: dict arguments inserted in descending key order, descending column list)
+    (True, None, dict(d=3, N=8, T=3, K=3, origin="zero", cell="ortho", variant="plain", seed0=1)),
     (False, None, dict(d=2, N=8, T=2, K=1, origin="centred", cell="tri", variant="lab-shift")),
     (False, None, dict(d=3, N=8, T=2, K=2, origin="sumzero", cell="tri", variant="lab-gap")),
     (False, ("pair", "s2", "dyn", "neigh", "order", "hess"), dict(d=2, N=8, T=2, K=2, origin="zero", cell="ortho", variant="lab-zero")),
     (False, _KARY_ONLY, dict(d=3, N=8, T=2, K=4, origin="zero", cell="ortho", variant="plain")),
     (False, _KARY_ONLY, dict(d=2, N=8, T=2, K=5, origin="zero", cell="ortho", variant="plain")),
     (False, _KARY_ONLY, dict(d=2, N=8, T=2, K=1, origin="zero", cell="ortho", variant="plain")),
+    (False, ("pair", "s2", "dyn", "hess", "order"), dict(d=3, N=8, T=2, K=6, origin="arbitrary", cell="ortho", variant="plain", seed0=2)),
     (False, _TIME, dict(d=2, N=8, T=3, K=2, origin="zero", cell="ortho", variant="logtimes")),
     (False, _TIME, dict(d=3, N=8, T=3, K=1, origin="arbitrary", cell="tri", variant="logtimes")),
     (False, ("pair", "s2", "dyn", "neigh"), dict(d=3, N=8, T=3, K=2, origin="zero", cell="ortho", variant="perm-types")),
     (False, ("pair", "s2", "dyn", "neigh", "order", "hess", "voro"), dict(d=2, N=8, T=2, K=2, origin="centred", cell="ortho", variant="int32-types")),
     (False, ("pair", "neigh", "voro", "boo", "dyn", "order", "s2"), dict(d=3, N=8, T=2, K=2, origin="sumzero", cell="ortho", variant="noncontig")),
-    # degenerate worlds: NaN / inf in the results -> with output files, and a second pass (repeats) like the full worlds
+    # one frame / five frames; species labels within {1, 2} in 3D (the default diameters / radii / ppp describe the world)
+    (False, None, dict(d=2, N=8, T=1, K=2, origin="arbitrary", cell="ortho", variant="plain", seed0=2)),
+    (False, None, dict(d=3, N=8, T=1, K=1, origin="centred", cell="tri", variant="plain", seed0=1)),
+    (True, _TIME + ("pair", "voro", "misc"), dict(d=3, N=8, T=5, K=2, origin="zero", cell="ortho", variant="plain", seed0=5)),
+    (False, _TIME, dict(d=2, N=8, T=4, K=1, origin="arbitrary", cell="tri", variant="plain")),
+    # partially periodic boxes, a repeated time step
+    (False, ("pair", "neigh", "boo", "dyn", "order", "s2", "nematic", "cg", "misc", "hess"),
+     dict(d=3, N=8, T=2, K=2, origin="zero", cell="tri", variant="mixed-ppp")),
+    (False, ("pair", "neigh", "boo", "dyn", "order", "s2", "nematic", "cg", "misc", "hess"),
+     dict(d=2, N=8, T=2, K=1, origin="arbitrary", cell="ortho", variant="mixed-ppp")),
+    (False, _TIME, dict(d=2, N=8, T=3, K=2, origin="zero", cell="ortho", variant="dup-times")),
+    (False, _TIME, dict(d=3, N=8, T=3, K=2, origin="zero", cell="ortho", variant="back-times")),
+    (False, ("pair", "neigh", "boo", "dyn", "order", "s2", "cg", "hess", "vec"),
+     dict(d=3, N=8, T=3, K=2, origin="arbitrary", cell="tri", variant="sheared")),
+    (False, ("pair", "neigh", "boo", "dyn", "order", "s2", "nematic", "cg"),
+     dict(d=2, N=8, T=2, K=1, origin="zero", cell="tri", variant="sheared", seed0=1)),
+]
+# larger systems on either side of a block size of 100 (first parameter set of every entry), a long trajectory
+SWEEP_SIZES = [
+    (False, None, dict(d=3, N=101, T=2, K=2, origin="arbitrary", cell="ortho", variant="plain"), 1),
+    (False, None, dict(d=2, N=100, T=2, K=1, origin="centred", cell="tri", variant="plain"), 1),
+    (False, _TIME, dict(d=2, N=8, T=8, K=2, origin="zero", cell="ortho", variant="plain")),
+    (False, _TIME, dict(d=3, N=8, T=7, K=1, origin="arbitrary", cell="tri", variant="logtimes")),
+]
+# degenerate worlds (facet sweep_nonfinite): NaN / inf in the results -> with output files, and a second pass (repeats)
+SWEEP_NONFINITE = [
     (True, _NONFINITE, dict(d=2, N=8, T=3, K=2, origin="zero", cell="ortho", variant="pinned")),
     (True, _NONFINITE, dict(d=3, N=8, T=3, K=1, origin="arbitrary", cell="ortho", variant="revisit")),
     (True, _NONFINITE, dict(d=2, N=8, T=3, K=2, origin="centred", cell="tri", variant="revisit", seed0=1)),
     (True, _NONFINITE, dict(d=3, N=8, T=3, K=2, origin="zero", cell="ortho", variant="zerofield")),
     (True, _NONFINITE, dict(d=2, N=8, T=2, K=1, origin="zero", cell="ortho", variant="zerofield")),
+    (True, ("dyn",), dict(d=3, N=8, T=5, K=2, origin="zero", cell="tri", variant="revisit")),
+    (True, ("dyn",), dict(d=2, N=8, T=4, K=2, origin="arbitrary", cell="ortho", variant="pinned")),
 ]
 
 
-def _sweep_calls(outs, fams, w):
+def _sweep_calls(outs, fams, w, maxp=None):
     for name, fn in CATALOGUE.items():
         if ONLY and name not in ONLY:
             continue
         if not eligible(fn, w) or (fams is not None and fn.fam not in fams and name not in fams):
             continue
-        for p in range(len(fn.P) if fams is not _KARY_ONLY else 2):
+        for p in range(min(len(fn.P), maxp or len(fn.P)) if fams is not _KARY_ONLY else 2):
             for out in ((False, True) if (fn.has_out and outs) else (False,)):
                 yield name, p, out
 
@@ -760,55 +1070,120 @@ def replay_sweep(case):
     try:
         w = World(root=os.path.join(root, "w"), **case["world"])
         h = History(w)
+        fresh = False
         for name, p, out in case.get("before", []) + [(case["entry"], case["p"], case["out"])]:
-            h.call(name, p, out, True)
+            if name == "<scribble>":
+                h.scribble()
+                fresh = True
+            else:
+                h.call(name, p, out, not fresh)
+    finally:
+        shutil.rmtree(root, ignore_errors=True)
+
+
+def _sweep(worlds, root, tracer=None, tier="quick"):
+    """Every (entry, params, output on/off) of the catalogue once per world of `worlds` -- and, in the worlds marked so, every
+    (entry, params) a second time in the opposite order, so that each is REPEATED with the whole catalogue in between (2)
+    -- all through ONE set of live analysis objects and one working directory per world, with invariants (1), (3), (7) after
+    every call.  `tracer` (flag coverage): the first run of every (entry, params, out, d [, K for the K-ary methods]) goes through the
+    profiler hook.  In the ordinary worlds that have a second pass a THIRD one follows: the caller overwrites everything returned
+    so far (8), then every call again through new objects in an empty directory each.
+    The harness runs finite enumerations under its line tracer (evidence of the code reached): kept for the first world,
+    switched off afterwards (3.5 x CPU otherwise)."""
+    import sys
+    traced = set()
+    if tier != "quick":  # thorough tier: every fixed world with three different contents (seeds)
+        worlds = [(o, f, dict(kw, seed0=kw.get("seed0", 0) + 1000 * r), *rest) for r in range(3) for (o, f, kw, *rest) in worlds]
+    for k, (outs, fams, kw, *rest) in enumerate(worlds):
+        if k == 1:
+            sys.settrace(None)
+        if tracer is not None:
+            with tracer:  # the harness constructs SingleSnapshot / Snapshots itself
+                w = _sweep_world(os.path.join(root, f"w{k}"), **kw)
+        else:
+            w = _sweep_world(os.path.join(root, f"w{k}"), **kw)
+        notes = []
+        h = History(w, notes.append, stride=20)
+        before = []
+        todo = list(_sweep_calls(outs, fams, w, *rest))
+        npass = len([c for c in todo if not c[2]])
+        if outs:  # second pass in the opposite order: every call without output file is then a REPEAT (invariant 2)
+            todo += [c for c in reversed(todo) if not c[2]]
+            if kw["variant"] == "plain":
+                # third pass (8): the caller first overwrites everything returned so far; every call again, new objects
+                todo += [("<scribble>", 0, False)] + todo[-npass:][::-1]
+        name = p = out = None
+        for name, p, out in todo:
+            if name == "<scribble>":
+                h.scribble()
+                before.append((name, p, out))
+                continue
+            case = {"world": dict(w.kw), "entry": name, "p": p, "out": out, "before": list(before)}
+            del notes[:]
+            tkey = (name, p, out, w.d, w.K if name in _KARY_ONLY else 0, w.T == 1)
+            fresh = ("<scribble>", 0, False) in before  # third pass: new objects, and an empty working directory per call
+            try:
+                if tracer is not None and tkey not in traced:
+                    traced.add(tkey)
+                    tracer.current = name
+                    with tracer:
+                        _, res = h.call(name, p, out, True)
+                else:
+                    _, res = h.call(name, p, out, not fresh)
+            except Violation as v:
+                v.case = case
+                raise
+            except Exception as e:  # noqa: BLE001
+                e.case = case
+                raise
+            # only the calls that returned arrays can matter for later steps of a replay
+            if has_arrays(res):
+                before.append((name, p, out))
+            yield {k2: v for k2, v in case.items() if k2 != "before"}, {
+                "nontrivial": not rejected(res), "tags": ["sweep:" + name, f"sweep-world-{kw['variant']}", f"sweep-world-T{w.T}"]
+                + ([REJECTED] if rejected(res) and REJECTED not in notes else [])
+                + [t for t in notes if not t.startswith(REJECTED + ":")], "extra": {"sweep_calls": 1}}
+        try:
+            h.check_watch("the last call of the sweep", full=True)
+        except Violation as v:
+            v.case = {"world": dict(w.kw), "entry": name, "p": p, "out": out, "before": list(before)}
+            raise
+        shutil.rmtree(w.root, ignore_errors=True)
+
+
+def gen_sweep_nonfinite(tier):
+    """The deterministic sweep of `_sweep` in the degenerate worlds (pinned particles, revisited frames, zero fields): the
+    results contain NaN / inf, so repeat-equality (NaN == NaN positionally) and the file round trips (NaN / inf tokens,
+    .npy) are exercised on non-finite values, every call once with and once without output file and once more as a repeat."""
+    root = tempfile.mkdtemp(prefix="sweep-", dir=os.getcwd())
+    try:
+        yield from _sweep(SWEEP_NONFINITE, root, tier=tier)
+    finally:
+        shutil.rmtree(root, ignore_errors=True)
+
+
+def gen_sweep_sizes(tier):
+    """The deterministic sweep of `_sweep` on two larger systems (N = 100 and 101: either side of a block size of 100; first
+    parameter set of every entry) and on two long trajectories (8 and 7 frames, the time-dependent families)."""
+    root = tempfile.mkdtemp(prefix="sweep-", dir=os.getcwd())
+    try:
+        yield from _sweep(SWEEP_SIZES, root, tier=tier)
     finally:
         shutil.rmtree(root, ignore_errors=True)
 
 
 def gen_sweep(tier):
-    """(a) every (entry, params, output on/off) of the catalogue once -- and in the two ordinary worlds every (entry, params)
-    a second time in the opposite order, so that each is repeated with the whole catalogue in between (2) -- in fixed small worlds (two ordinary ones, two with
-    unusual species labels, three for the 1-, 4- and 5-species methods, one or two per other off-domain variant for the
-    families it concerns), all through ONE set of live analysis objects per world, with invariants (1), (3), (7) after every call;  (b) while that runs, a profiler hook records which public
+    """(a) every (entry, params, output on/off) of the catalogue once -- and in the ordinary worlds marked so every (entry,
+    params) a second time in the opposite order -- in fixed small worlds (two ordinary ones in full, two with unusual species
+    labels, three for the 1-, 4- and 5-species methods, one-frame and five-frame trajectories, one or two per other
+    off-domain variant for the families it concerns), see `_sweep`;  (b) while that runs, a profiler hook records which public
     callables of PyMatterSim are entered and with which flag values;  (c) the API inventory and the flag coverage are
     reported, and a flag of a catalogued routine that no entry varies is raised as a HARNESS error."""
     inv, broken = inventory()
     tracer = CallTracer(inv)
     root = tempfile.mkdtemp(prefix="sweep-", dir=os.getcwd())
     try:
-        for k, (outs, fams, kw) in enumerate(SWEEP_WORLDS):
-            with tracer:  # the harness constructs SingleSnapshot / Snapshots itself
-                w = _sweep_world(os.path.join(root, f"w{k}"), **kw)
-            h = History(w, stride=20)
-            before = []
-            todo = list(_sweep_calls(outs, fams, w))
-            if outs:  # second pass in the opposite order: every call without output file is then a REPEAT (invariant 2)
-                todo += [c for c in reversed(todo) if not c[2]]
-            for name, p, out in todo:
-                case = {"world": dict(w.kw), "entry": name, "p": p, "out": out, "before": list(before)}
-                tracer.current = name
-                try:
-                    with tracer:
-                        _, res = h.call(name, p, out, True)
-                except Violation as v:
-                    v.case = case
-                    raise
-                except Exception as e:  # noqa: BLE001
-                    e.case = case
-                    raise
-                # only the calls that returned arrays can matter for later steps of a replay
-                if has_arrays(res):
-                    before.append((name, p, out))
-                yield {k2: v for k2, v in case.items() if k2 != "before"}, {
-                    "nontrivial": not rejected(res), "tags": ["sweep:" + name, f"sweep-world-{kw['variant']}"]
-                    + ([REJECTED] if rejected(res) else []), "extra": {"sweep_calls": 1}}
-            try:
-                h.check_watch("the last call of the sweep", full=True)
-            except Violation as v:
-                v.case = {"world": dict(w.kw), "entry": name, "p": p, "out": out, "before": list(before)}
-                raise
-            shutil.rmtree(w.root, ignore_errors=True)
+        yield from _sweep(SWEEP_WORLDS, root, tracer, tier=tier)
     finally:
         shutil.rmtree(root, ignore_errors=True)
 
@@ -858,23 +1233,35 @@ def describe_sweep(case):
 
 # ============================================================================= facets
 
-_SINGLE_N = {"pair": (90, 6000), "neigh": (60, 4000), "voro": (60, 1500), "boo": (110, 4000), "dyn": (90, 4000),
-             "vec": (80, 5000), "cg": (50, 3000), "order": (50, 3000), "s2": (60, 3000), "nematic": (50, 3000),
-             "hess": (50, 2000), "misc": (60, 4000), "utils": (60, 3000), "reader": (40, 2000)}
+_SINGLE_N = {"pair": (72, 5000), "neigh": (46, 3400), "voro": (40, 1300), "boo": (84, 3400), "dyn": (76, 3600),
+             "vec": (60, 4200), "cg": (40, 2600), "order": (40, 2600), "s2": (44, 2600), "nematic": (40, 2600),
+             "hess": (40, 1800), "misc": (46, 3400), "utils": (44, 2600), "reader": (30, 1800)}
 _SINGLE_SH = {"pair": 4, "boo": 4, "voro": 2, "dyn": 2, "vec": 2, "s2": 2}
 
 FACETS = [
-    Facet("machine", machine=PurityMachine, quick=150, thorough=6000, steps=10, describe=describe_machine, shards_quick=6,
+    Facet("machine", machine=PurityMachine, quick=132, thorough=6000, steps=10, describe=describe_machine, shards_quick=6,
           rule="call histories on one shared world (steps: call / repeat / vary parameters / rebuild inputs as fresh objects / "
                "mutate-and-restore); non-trivial = >= 2 different entry points and >= 1 repeated "
                "(entry, params, out) call with another call in between"),
-    Facet("chains", chain_st(), check_chain, quick=120, thorough=6000, describe=describe_chain, shards_quick=4,
+    Facet("chains", chain_st(), check_chain, quick=100, thorough=6000, describe=describe_chain, shards_quick=4,
           rule="4-7 drawn methods of one family (" + ", ".join(CHAIN_FAMILIES) + ") on ONE set of live analysis objects, then two "
                "of the earlier calls again; non-trivial = >= 2 different calls and a repeated call with another one in between"),
     Facet("flag_coverage", check=gen_sweep, exhaustive=True, describe=describe_sweep,
           rule="deterministic sweep: every (entry, parameter set, output on/off) once through shared live objects in fixed "
                "worlds; API inventory by introspection with measured coverage; every bool / Enum / documented-choice keyword "
                "of every directly exercised callable must have taken all its values (else HARNESS error)"),
+    Facet("sweep_nonfinite", check=gen_sweep_nonfinite, exhaustive=True, describe=describe_sweep,
+          rule="the deterministic sweep in the degenerate worlds (pinned particles / revisited frames / zero fields): every "
+               "(entry, parameter set) of the families concerned with and without output file and once more as a repeat; "
+               "non-trivial = the call returned (was not refused)"),
+    Facet("sweep_sizes", check=gen_sweep_sizes, exhaustive=True, describe=describe_sweep,
+          rule="the deterministic sweep on two larger systems (N = 100, 101; first parameter set of every entry) and two long "
+               "trajectories (8 and 7 frames; time-dependent families)"),
+    Facet("sizes", sizes_st(), check_single, quick=10, thorough=480, describe=describe_single, shards_quick=2,
+          rule="one entry of any family on a larger system (N in 64, 99, 100, 101, 128; 1-3 frames): call / purity / other "
+               "parameters / call again / deep copy / caller overwrites the returned arrays / call again"),
+    Facet("machine_deep", machine=PurityMachineDeep, quick=0, thorough=1200, steps=30, describe=describe_machine,
+          rule="thorough tier only: the histories of `machine` with up to 30 steps, 1-8 frames, N up to 40 (sometimes 64-150)"),
 ] + [
     Facet(f"single_{fam}", single_st(fam), check_single, quick=_SINGLE_N.get(fam, (60, 3000))[0],
           thorough=_SINGLE_N.get(fam, (60, 3000))[1],
@@ -883,4 +1270,6 @@ FACETS = [
                f"both calls on a deep copy in the opposite order; non-trivial = the entry is applicable to the drawn world")
     for fam in FAMILIES
 ]
-FACETS[2].replay = replay_sweep
+for _f in FACETS:
+    if _f.kind == "enum":
+        _f.replay = replay_sweep
